@@ -2,7 +2,7 @@
 From Coq Require Import ZArith List Bool NArith Lia ZifyBool ZifyNat.
 From Coq.Strings Require Import Byte String.
 From EsVerif.Common Require Import Base Bytes.
-From EsVerif.C01 Require Import Framing FramingProofs Model Spec.
+From EsVerif.C01 Require Import Framing FramingProofs Model Spec Layout LayoutProofs.
 Import ListNotations.
 Open Scope Z_scope.
 Open Scope list_scope.
@@ -243,6 +243,30 @@ Section PyProofs.
         rewrite get_put_other; [exact G'|]. intro X; subst k. discriminate.
   Qed.
 
+  (* ---------------------------------------------------------------- any memory layout *)
+  Lemma view_rows_fit dt v : in_bounds v = true -> Z.of_nat (v_item v) = rowsize dt ->
+    rows_fit dt (view_rows v).
+  Proof.
+    intros IB E. unfold rows_fit. eapply Forall_impl; [|apply view_rows_item; exact IB].
+    intros r Hr. cbv beta in Hr. rewrite Hr. exact E.
+  Qed.
+
+  Lemma view_rows_nonempty v : (1 <= view_size v)%nat -> view_rows v <> [].
+  Proof. intros H E. rewrite <- view_rows_count, E in H. cbn in H. lia. Qed.
+
+  (* the round trip for the array as numpy holds it: strided, reversed, transposed, ... *)
+  Theorem roundtrip_any_layout hdr dt v :
+    H_pf pyval pyeq pformat pyeval np_dtype (mkh hdr dt) dt ->
+    user_hdr_ok pyval hdr ->
+    in_bounds v = true -> (1 <= view_size v)%nat -> Z.of_nat (v_item v) = rowsize dt -> 0 < rowsize dt ->
+    exists out, sfile_read pyval v_str v_int np_dtype pyeval
+                  (sfile_write_view pyval v_str v_descr pformat hdr dt v) = Ok out
+                /\ roundtrip_ok pyval pyeq v_int np_dtype hdr dt (view_rows v) out.
+  Proof.
+    intros H U IB N E R. rewrite sfile_write_view_eq by exact IB.
+    apply roundtrip; auto using view_rows_nonempty, view_rows_fit.
+  Qed.
+
   (* the data region of a self-describing file, read by the low-level reader given the dtype
      and the offset of the data *)
   Theorem sfile_data_region hdr dt rows nrows :
@@ -284,6 +308,27 @@ Theorem recfile_roundtrip dt rows nrows :
 Proof.
   intros NE F R HN. unfold recfile_read0, recfile_write.
   exact (recfile_read_spec [] rows (rowsize dt) nrows R NE F HN).
+Qed.
+
+Theorem recfile_roundtrip_any_layout dt v nrows :
+  in_bounds v = true -> (1 <= view_size v)%nat -> Z.of_nat (v_item v) = rowsize dt -> 0 < rowsize dt ->
+  (nrows = None \/ (exists m, nrows = Some m /\ m < 0) \/ nrows = Some (Z.of_nat (view_size v))) ->
+  recfile_read0 (recfile_write_view v) dt nrows = Ok (view_rows v).
+Proof.
+  intros IB N E R HN. rewrite write_any_layout by exact IB.
+  apply recfile_roundtrip; auto.
+  - intro X. rewrite <- view_rows_count, X in N. cbn in N. lia.
+  - unfold rows_fit. eapply Forall_impl; [|apply view_rows_item; exact IB].
+    intros r Hr. cbv beta in Hr. rewrite Hr. exact E.
+  - rewrite view_rows_count. exact HN.
+Qed.
+
+Theorem write_v0_outside_known v : kf_noncontiguous_write v = false -> in_bounds v = true ->
+  0 <= v_start v -> v_start v + Z.of_nat (view_size v * v_item v) <= Z.of_nat (length (v_buf v)) ->
+  recfile_write_view_v0 v = bin_write (view_rows v).
+Proof.
+  intro K. apply write_v0_contiguous. unfold kf_noncontiguous_write in K.
+  destruct (is_c_contiguous v); [reflexivity | discriminate K].
 Qed.
 
 Theorem count_nrows_written (hdr : list byte) dt rows :
